@@ -113,7 +113,44 @@ func verifDecodeOne(c verifSpecCase, src string) (msg string) {
 	return ""
 }
 
+// verifWrappedAttrs: an attribute or block spec wrapped in validate / refine / default specs is still
+// part of the schema and decodes the body's value ("when decoding reports no error the value is exactly
+// the one the specification describes").
+func verifWrappedAttrs() (int, []string) {
+	attr := &AttrSpec{Name: "name", Type: cty.String}
+	ok := func(cty.Value) hcl.Diagnostics { return nil }
+	wraps := map[string]Spec{
+		"validate":          &ValidateSpec{Wrapped: attr, Func: ok},
+		"default(attr)":     &DefaultSpec{Primary: attr, Default: &LiteralSpec{Value: cty.StringVal("anonymous")}},
+		"default(validate)": &DefaultSpec{Primary: &ValidateSpec{Wrapped: attr, Func: ok}, Default: &LiteralSpec{Value: cty.StringVal("anonymous")}},
+		"validate(default)": &ValidateSpec{Wrapped: &DefaultSpec{Primary: attr, Default: &LiteralSpec{Value: cty.StringVal("anonymous")}}, Func: ok},
+		"object(default(validate))": ObjectSpec{"n": &DefaultSpec{Primary: &ValidateSpec{Wrapped: attr, Func: ok}, Default: &LiteralSpec{Value: cty.StringVal("anonymous")}}},
+	}
+	var fails []string
+	n := 0
+	for name, spec := range wraps {
+		n++
+		f, d := hclsyntax.ParseConfig([]byte("name = \"Ermintrude\"\n"), "t.hcl", hcl.InitialPos)
+		if d.HasErrors() {
+			continue
+		}
+		v, dd := Decode(f.Body, spec, nil)
+		got := v
+		if v.Type().IsObjectType() && v.IsKnown() && !v.IsNull() {
+			got = v.GetAttr("n")
+		}
+		if dd.HasErrors() || !got.RawEquals(cty.StringVal("Ermintrude")) {
+			fails = append(fails, fmt.Sprintf("input=%q spec %s: name = \"Ermintrude\" decodes to %#v (errors: %v)", "wrapped/"+name, name, v, dd.HasErrors()))
+		}
+	}
+	return n, fails
+}
+
 func TestVerifReplayDecode(t *testing.T) {
+	_, wfails := verifWrappedAttrs()
+	for _, m := range wfails {
+		t.Errorf("REPLAY-FAIL func=hcldec.ImpliedSchema %s", m)
+	}
 	contents := []string{`a = "s"`, `a = true`, `a = [1]`, `a = {k = 1}`, ``, `a = nope`, "a = 1\nb = \"s\""}
 	n := 0
 	seenKey := map[string]bool{}
